@@ -1,7 +1,11 @@
 /-
   C01 — the logic-to-polyhedron encoding agrees with evaluation on every assignment.
+  `enc_feasible` / `enc_active_iff` are stated for any extension that agrees with the model; `agrees_ext` shows that the
+  extension by evaluated truth values agrees when the model is coherent (one id, one value); `validated_coherent` (built on
+  C10) shows that validation gives coherence — `encoding_agrees_with_evaluation` is the property in one statement.
 -/
 import Puan.Lemmas.Encode
+import Puan.Props.C10
 namespace Puan.C01
 open Puan P
 
@@ -87,5 +91,77 @@ example :
        .leaf "c" ⟨0,1⟩] {}
     let σ : String → Int := fun i => if i = "z" then -2 else if i = "c" then 1 else 0
     evalPt σ t = 1 ∧ (encode true t).all (fun r => decide (r.sat (ext t σ))) = true := by decide
+
+/-! ## Validation gives the hypothesis: in a model that `errors()` accepts all occurrences of an id evaluate alike -/
+
+/-- reference-free: no leaf carries the id of a sub-proposition (the scope of C01–C08) -/
+def RefFree (t : P) : Prop := ∀ a ∈ subs t, ∀ b ∈ subs t, a.id = b.id → a.isLeaf = b.isLeaf
+
+theorem sum_eq_of_ids (σ : String → Int) (Q : P → P → Prop) (hQ : ∀ a b, Q a b → evalPt σ a = evalPt σ b) :
+    ∀ (ks ls : List P), ks.map (·.id) = ls.map (·.id) → (∀ k ∈ ks, ∀ l ∈ ls, k.id = l.id → Q k l) → sumPt σ ks = sumPt σ ls
+  | [], [], _, _ => rfl
+  | [], _ :: _, h, _ => by simp at h
+  | _ :: _, [], h, _ => by simp at h
+  | k :: ks, l :: ls, h, hq => by
+      simp only [List.map_cons, List.cons.injEq] at h
+      simp only [sumPt]
+      rw [hQ k l (hq k (by simp) l (by simp) h.1),
+        sum_eq_of_ids σ Q hQ ks ls h.2 (fun a ha b hb => hq a (by simp [ha]) b (by simp [hb]))]
+
+/-- **a validated, reference-free model is coherent**: one id, one value — whatever the assignment.  (Every occurrence of
+    a sub-proposition id has the same sign, value and child ids — C10.single_definition — and, by induction on the size of
+    the sub-tree, the children evaluate alike.) -/
+theorem validated_coherent (σ : String → Int) (t : P) (he : errors t = []) (hr : RefFree t) : Coherent σ t := by
+  have key : ∀ N : Nat, ∀ n ∈ subs t, ∀ m ∈ subs t, (subs n).length ≤ N → n.id = m.id → evalPt σ n = evalPt σ m := by
+    intro N
+    induction N with
+    | zero =>
+        intro n _ m _ hl _
+        have : 0 < (subs n).length := by cases n <;> simp [subs]
+        omega
+    | succ N ih =>
+        intro n hn m hm hl hid
+        cases n with
+        | leaf i b =>
+            cases m with
+            | leaf j c => simp only [P.id] at hid; simp [evalPt, hid]
+            | node j c s' v' ls m' => have := hr _ hn _ hm hid; simp [isLeaf] at this
+        | node i b s v ks mm =>
+            cases m with
+            | leaf j c => have := hr _ hn _ hm hid; simp [isLeaf] at this
+            | node j c s' v' ls m' =>
+                have hsd := C10.single_definition t he _ hn _ hm rfl rfl hid
+                obtain ⟨_, hs, hv, hids⟩ := C10.sameDef_spec _ _ _ _ _ _ _ _ _ _ _ _ hsd
+                subst hs; subst hv
+                have hsum : sumPt σ ks = sumPt σ ls := by
+                  apply sum_eq_of_ids σ (fun a b => a ∈ subs t ∧ b ∈ subs t ∧ (subs a).length ≤ N ∧ a.id = b.id)
+                    (fun a b ⟨h1, h2, h3, h4⟩ => ih a h1 b h2 h3 h4) ks ls hids
+                  intro k hk l hlm hkl
+                  have ⟨hks, hkl'⟩ := C10.kid_subs ks k hk
+                  have ⟨hls, _⟩ := C10.kid_subs ls l hlm
+                  refine ⟨?_, ?_, ?_, hkl⟩
+                  · exact C10.subs_trans t _ k hn (by simp only [subs, List.mem_cons]; right; exact hks k (C10.self_mem_subs k))
+                  · exact C10.subs_trans t _ l hm (by simp only [subs, List.mem_cons]; right; exact hls l (C10.self_mem_subs l))
+                  · simp only [subs, List.length_cons] at hl; omega
+                simp only [evalPt, hsum]
+  intro n hn m hm hid
+  exact key _ n hn m hm (Nat.le_refl _) hid
+
+/-- … so for validated reference-free models C01 needs no further hypothesis about ids: the assignment extended by the
+    evaluated truth values (`ext`) agrees with the model -/
+theorem agrees_ext_validated (σ : String → Int) (t : P) (he : errors t = []) (hr : RefFree t) : Agrees (ext t σ) σ t :=
+  agrees_ext σ t (validated_coherent σ t he hr)
+
+/-- **C01 in one statement**: for a model that passes validation (reference-free, no sub-proposition pre-fixed, signs ±1)
+    and every assignment of its leaves within their bounds, the assignment extended by each sub-proposition's evaluated
+    truth value satisfies the system without the top node asserted, and satisfies the asserted system exactly when the
+    model evaluates to true -/
+theorem encoding_agrees_with_evaluation (σ : String → Int) (i b s v ks m)
+    (he : errors (.node i b s v ks m) = []) (hr : RefFree (.node i b s v ks m))
+    (hb : InB σ (.node i b s v ks m)) (hs : SignOk (.node i b s v ks m)) (hf : Free01 (.node i b s v ks m)) :
+    (∀ r ∈ encode false (.node i b s v ks m), r.sat (ext (.node i b s v ks m) σ)) ∧
+    ((∀ r ∈ encode true (.node i b s v ks m), r.sat (ext (.node i b s v ks m) σ)) ↔ evalPt σ (.node i b s v ks m) = 1) :=
+  have ha := agrees_ext_validated σ (.node i b s v ks m) he hr
+  ⟨enc_feasible _ σ _ ha hb hs hf, enc_active_iff _ σ i b s v ks m ha hb hs hf⟩
 
 end Puan.C01
